@@ -24,7 +24,9 @@ Status of the five parts of the property:
 4. qualification rules — `complaint_row_not_qualified`, `evicted_not_qualified`,
    `few_complaints_not_evicted`, `many_complaints_evicted`;
 5. all honest ⇒ everyone finishes — a checked instance only (`all_honest_finishes_partial`).
-Rabin DKG (share/dkg/rabin) is not modelled; its building block, Rabin VSS, is C10.
+Rabin DKG (share/dkg/rabin): modelled on top of the C10 Rabin VSS model in Proto/RabinDkg.lean; its theorems are in
+Props/C11RabinDkg.lean (who is qualified), Props/C11RabinDkg2.lean (the distributed key), Lib/RabinDkgNoPanic.lean
+(no call panics) and Props/C11Rabin.lean (the recorded VSS-level findings as counterexamples).
 -/
 namespace Kyber.Dkg
 open Polynomial Kyber.Scalar Kyber.Share
